@@ -41,6 +41,25 @@ class Infra(Exception):
     """infrastructure failure -> exit 2"""
 
 
+def raised_by_impl(e):
+    """True when the exception came out of the code under verification (some frame of its traceback is
+    in REPO/modelx): then it is an observation about the implementation (to be reported as a failure
+    with the history that led to it), not a fault of the harness"""
+    root = os.path.join(os.path.realpath(REPO), "modelx") + os.sep
+    t = e.__traceback__
+    while t is not None:
+        if os.path.realpath(t.tb_frame.f_code.co_filename).startswith(root):
+            return True
+        t = t.tb_next
+    return False
+
+
+def impl_error_text(e):
+    """short deterministic text of an exception raised by the implementation (no addresses)"""
+    msg = re.sub(r"0x[0-9a-fA-F]+", "0x..", str(e)).replace("\n", " ")[:160]
+    return "%s: %s" % (type(e).__name__, msg)
+
+
 class Ctx:
     def __init__(self, prop, tier, seed):
         self.prop = prop
